@@ -1070,10 +1070,9 @@ func (d *Data) SplitSupervoxel(v dvid.VersionID, svlabel, splitlabel, remainlabe
 		d.restoreOldBlocks(ctx, numBlocks, origBlocks)
 		return
 	}
+	// addSupervoxelSplitToMapping also writes the split record to the mutation log, so it must
+	// not be logged a second time here (the record would be replayed twice on restart).
 	if err = addSupervoxelSplitToMapping(d, v, op); err != nil {
-		return
-	}
-	if err = labels.LogSupervoxelSplit(d, v, op); err != nil {
 		return
 	}
 	// store the new split index
